@@ -411,6 +411,7 @@ def main():
     write_if_changed(os.path.join(a.out, "Schemas.lean"), "\n".join(sl))
     emit_arg_schemas(a.repo, a.out, report)  # C12
     emit_accessors(a.repo, a.out, report)    # C10 / C15
+    emit_risky(a.repo, a.out, report)        # C10
     report["plugins"] = len(sch)
     print(json.dumps(report, sort_keys=True))
 
@@ -433,6 +434,62 @@ def emit_accessors(repo, out, report):
     report["accessors"] = len(names)
     if not names:
         report["missing"].append("cgroupContextAccessors")
+
+
+RISKY_FILES = ["src/oomd/Oomd.cpp", "src/oomd/OomdContext.cpp", "src/oomd/OomdContext.h", "src/oomd/CgroupContext.cpp",
+               "src/oomd/util/Fs.cpp", "src/oomd/engine/Engine.cpp", "src/oomd/engine/Ruleset.cpp", "src/oomd/engine/DetectorGroup.cpp"]
+RISKY_DIRS = ["src/oomd/plugins", "src/oomd/plugins/systemd"]
+RISKY_RX = re.compile(r"\.value\(\)|\.at\(|std::sto(?:i|l|ll|ul|ull|f|d|ld)\(")
+
+
+def risky_sites(repo):
+    """(file, normalised source line) of every operation that throws / is undefined on an input it does not check itself:
+    `.value()` of an optional / SystemMaybe, `.at(` of a container, `std::sto*`; in the files a tick executes"""
+    files = list(RISKY_FILES)
+    for d in RISKY_DIRS:
+        full = os.path.join(repo, d)
+        if os.path.isdir(full):
+            for f in sorted(os.listdir(full)):
+                if f.endswith((".cpp", ".h")) and not f.endswith("Test.cpp"):
+                    files.append(d + "/" + f)
+    out = []
+    for f in files:
+        src = strip_comments(read(repo, f))
+        for line in src.splitlines():
+            if RISKY_RX.search(line):
+                out.append((f, re.sub(r"\s+", " ", line).strip()))
+    return out
+
+
+def emit_risky(repo, out, report):
+    """C10: census of the unchecked-by-themselves operations, compared with the reviewed table tools/risky_reviewed.json
+    (file, line text, how often, why it cannot fire in the fault domain).  A site that is not in the table - a new `.value()`,
+    `.at(`, `std::sto*`, or one more copy of a reviewed line - is listed in `unreviewedRisky`; C10.no_unreviewed_risky_operation
+    states that the list is empty."""
+    here = os.path.dirname(os.path.abspath(__file__))
+    try:
+        table = json.load(open(os.path.join(here, "risky_reviewed.json")))
+    except Exception:
+        table = []
+    allowed = {}
+    for e in table:
+        allowed[(e["file"], e["text"])] = allowed.get((e["file"], e["text"]), 0) + int(e.get("count", 1))
+    seen = {}
+    sites = risky_sites(repo)
+    unrev = []
+    for f, t in sites:
+        seen[(f, t)] = seen.get((f, t), 0) + 1
+        if seen[(f, t)] > allowed.get((f, t), 0):
+            unrev.append((f, t))
+    lines = ["/-! GENERATED by tools/extract.py (C10): census of `.value()` / `.at(` / `std::sto*` in the code a tick executes, and",
+             "the sites among them that tools/risky_reviewed.json does not list. Do not edit. -/",
+             "namespace OomdModel.Generated", "",
+             "def riskySiteCount : Nat := %d" % len(sites), "",
+             "def unreviewedRisky : List (String × String) := [" + ", ".join("(%s, %s)" % (lean_str(f), lean_str(t)) for f, t in unrev) + "]", "",
+             "end OomdModel.Generated", ""]
+    write_if_changed(os.path.join(out, "Risky.lean"), "\n".join(lines))
+    report["risky_sites"] = len(sites)
+    report["risky_unreviewed"] = ["%s: %s" % x for x in unrev]
 
 
 def write_if_changed(path, content):
